@@ -53,6 +53,7 @@ type detReader struct {
 	seed uint64
 	ctr  uint64
 	buf  []byte
+	log  [][]byte // every Read call's bytes, in order (64-byte reads are PRNG keys)
 }
 
 func (d *detReader) Read(p []byte) (int, error) {
@@ -70,7 +71,23 @@ func (d *detReader) Read(p []byte) (int, error) {
 		d.buf = d.buf[k:]
 		n += k
 	}
+	cp := make([]byte, len(p))
+	copy(cp, p)
+	d.log = append(d.log, cp)
 	return n, nil
 }
 
-func InstallDeterministicRand(seed uint64) { rand.Reader = &detReader{seed: seed} }
+var theRand *detReader
+
+func InstallDeterministicRand(seed uint64) {
+	theRand = &detReader{seed: seed}
+	rand.Reader = theRand
+}
+
+// RandMark returns the number of crypto/rand reads so far; RandKeysSince(mark) returns the
+// byte strings handed out since then. Each sampling.NewPRNG() inside lattigo performs exactly
+// one 64-byte read (its key), so a twin generator with the identical stream is
+// sampling.NewKeyedPRNG(key).
+func RandMark() int { return len(theRand.log) }
+
+func RandKeysSince(mark int) [][]byte { return theRand.log[mark:] }
